@@ -169,7 +169,9 @@ func Endpoints() []Endpoint {
 			},
 			Flag: func(r any) (string, bool, bool) { return "noop", r.(*pb.CreateSubscriptionResponse).Noop, true }, FlagWant: noop},
 		{Name: "ReadSchedule", Kind: t_api.ReadSchedule, Method: "GET", Path: "/schedules/foo", OK: []t_api.StatusCode{t_api.StatusOK},
-			Grpc: func(s grpcApi.VerifServer) (any, error) { return s.ReadSchedule(ctx, &pb.ReadScheduleRequest{Id: "foo"}) }},
+			Grpc: func(s grpcApi.VerifServer) (any, error) {
+				return s.ReadSchedule(ctx, &pb.ReadScheduleRequest{Id: "foo"})
+			}},
 		{Name: "SearchSchedules", Kind: t_api.SearchSchedules, Method: "GET", Path: "/schedules?id=*&limit=10", OK: []t_api.StatusCode{t_api.StatusOK},
 			Grpc: func(s grpcApi.VerifServer) (any, error) {
 				return s.SearchSchedules(ctx, &pb.SearchSchedulesRequest{Id: "*", Limit: 10})
